@@ -1,4 +1,5 @@
 """C10 - sibling names stay unique and exact-name lookup always agrees with a scan."""
+from simkit import oplang
 from simkit.engine import Prop
 from simkit.gen_iredit import swarm_config, NAMES_COLLIDE
 from simkit.model import scan
@@ -131,7 +132,7 @@ class C10(Prop):
             e = w.h(ev["on"])
             if e is None:
                 return None
-            v = ev["v"]
+            v = oplang._value(ev["v"])
             if op == "set_name" and v is None and ".NAME" in e:
                 return ""  # this is a delete
             k = kind_of(e)
